@@ -1,3 +1,134 @@
+import QmiModel.Model.WakeSys
 import Drv.Common
-/-! stub driver for C11: replaced when the model is built -/
-def main : IO Unit := Drv.main' (fun (s : Unit) _ => (s, "bad-op")) ()
+import Std.Data.HashMap
+/-!
+Line-protocol driver for C11 (model: `QmiModel/Model/Wake.lean`, programs: `QmiModel/Gen/SyncProgs.lean`).
+
+    sys <any|loop|sleep|recvn|recvt> <nStop> <pub:0|1> <cap>   -> ok <n>        select a system, restart the trace
+    ev <tid> <label>                                          -> ok <n> | no enabled=<labels>   follow one observed operation
+    q                                                         -> task=<statuses> fin=<counts> flag=<values> parked=<values>
+    check <task> <nStop> <pub> <cap>                          -> states=<n> ok | states=<n> bad=<clause> schedule=<tid:label,...>
+    progs                                                     -> sizes of the generated programs
+
+`ev` keeps the *set* of model states compatible with the trace so far (thread-local nondeterminism — data-dependent
+branches — is resolved lazily); an operation no compatible state can perform is answered `no`.
+-/
+open QmiModel.Wake QmiModel.Wake.Systems
+
+def markText : Mark → String
+  | .prepare => "p" | .iteration => "i" | .finalize => "f"
+
+def b01 (b : Bool) : String := if b then "1" else "0"
+
+def lblText : Lbl → String
+  | .lock l => s!"lock:{l}" | .unlock l => s!"unlock:{l}"
+  | .setFlag => "setflag" | .ldFlag v => s!"ldflag:{b01 v}" | .ldWc v => s!"ldwc:{b01 v}" | .stWc b => s!"stwc:{b01 b}"
+  | .park => "park" | .reacq n => s!"reacq:{b01 n}" | .notify => "notify"
+  | .evCheck => "evcheck" | .evPark => "evpark" | .evWake b => s!"evwake:{b01 b}"
+  | .slPark => "slpark" | .slWake => "slwake"
+  | .mark m => s!"mark:{markText m}" | .publish => "publish" | .crash => "crash"
+
+def statusText : Status → String
+  | .run => "run" | .done => "done" | .raised .stop => "raised:stop" | .raised .timeout => "raised:timeout" | .crashed => "crashed"
+
+def taskFn : String → Option Nat
+  | "any" => some fMainAny | "loop" => some fMainLoop | "sleep" => some fMainSleep
+  | "recvn" => some fMainRecvN | "recvt" => some fMainRecvT | _ => none
+
+def parseSys (t n p c : String) : Option (Sys × Bool) :=
+  match taskFn t, n.toNat?, p, c.toNat? with
+  | some f, some ns, "0", some cap => if ns ≤ 3 && cap ≤ 3 then some (mk f ns false cap, t == "loop") else none
+  | some f, some ns, "1", some cap => if ns ≤ 3 && cap ≤ 3 then some (mk f ns true cap, t == "loop") else none
+  | _, _, _, _ => none
+
+def dedup (l : List St) : List St :=
+  l.foldl (fun acc s => if acc.any (·.beq s) then acc else s :: acc) []
+
+def uniqStr (l : List String) : String :=
+  let u := l.foldl (fun acc s => if acc.contains s then acc else acc ++ [s]) []
+  if u.isEmpty then "-" else ",".intercalate u
+
+structure DState where
+  sys : Sys
+  isLoop : Bool
+  cands : List St
+
+/-! ### exhaustive exploration with parent pointers (native speed) -/
+
+structure Node where
+  st : St
+  parent : Nat
+  tid : Nat
+  lbl : Lbl
+
+def exitGood (isLoop : Bool) (s : St) : Bool :=
+  match taskTh s with
+  | some t => if isLoop then (t.status == .done && s.fin == 1) else t.status == .raised .stop
+  | none => false
+
+def badClause (sys : Sys) (isLoop : Bool) (s : St) : Option String :=
+  if lostWakeup sys s then some "lost-wakeup"
+  else if anyCrashed s then some "thread-error"
+  else if !stopSetsFlag sys s then some "stop-without-flag"
+  else if !noParkAfterStop sys s then some "parks-after-stop"
+  else if !(if isLoop then loopExit s else exitOnlyByStop s) then some "wrong-exit"
+  else if !releasedB sys (exitGood isLoop) s then some "not-released"
+  else none
+
+partial def bfs (sys : Sys) (nodes : Array Node) (index : Std.HashMap Nat (List Nat)) (i : Nat) : Array Node :=
+  if h : i < nodes.size then
+    let s := nodes[i].st
+    let (nodes, index) := (List.range s.ths.length).foldl (fun (acc : Array Node × Std.HashMap Nat (List Nat)) tid =>
+      (stepThL sys s tid).foldl (fun (acc : Array Node × Std.HashMap Nat (List Nat)) p =>
+        let k := p.2.key
+        let ids := acc.2.getD k []
+        if ids.any (fun j => match acc.1[j]? with | some n => n.st.beq p.2 | none => false) then acc
+        else (acc.1.push ⟨p.2, i, tid, p.1⟩, acc.2.insert k (acc.1.size :: ids))) acc) (nodes, index)
+    if nodes.size > 400000 then nodes else bfs sys nodes index (i + 1)
+  else nodes
+
+partial def pathTo (nodes : Array Node) (i : Nat) (acc : List String) : List String :=
+  match nodes[i]? with
+  | none => acc
+  | some n => if n.parent == i then acc else pathTo nodes n.parent (s!"{n.tid}:{lblText n.lbl}" :: acc)
+
+def runCheck (sys : Sys) (isLoop : Bool) : String :=
+  let is := inits sys
+  let nodes0 : Array Node := is.foldl (fun a s => a.push ⟨s, a.size, 0, .crash⟩) #[]
+  let index0 : Std.HashMap Nat (List Nat) :=
+    (List.range nodes0.size).foldl (fun m j => match nodes0[j]? with | some n => m.insert n.st.key (j :: m.getD n.st.key []) | none => m) {}
+  let nodes := bfs sys nodes0 index0 0
+  let bad := (List.range nodes.size).findSome? fun j =>
+    match nodes[j]? with
+    | some n => (badClause sys isLoop n.st).map fun c => (j, c)
+    | none => none
+  match bad with
+  | none => s!"states={nodes.size} ok"
+  | some (j, c) => s!"states={nodes.size} bad={c} schedule={",".intercalate (pathTo nodes j [])}"
+
+def stepLine (d : DState) (line : String) : DState × String :=
+  match line.splitOn " " with
+  | ["sys", t, n, p, c] =>
+    match parseSys t n p c with
+    | some (sys, isLoop) => let is := inits sys; ({ sys := sys, isLoop := isLoop, cands := is }, s!"ok {is.length}")
+    | none => (d, "bad-op")
+  | ["ev", tid, lbl] =>
+    match tid.toNat? with
+    | none => (d, "bad-op")
+    | some tid =>
+      let all := d.cands.flatMap fun s => stepThL d.sys s tid
+      let nxt := dedup ((all.filter fun p => lblText p.1 == lbl).map (·.2))
+      if nxt.isEmpty then (d, s!"no enabled={uniqStr (all.map fun p => lblText p.1)}")
+      else ({ d with cands := nxt }, s!"ok {nxt.length}")
+  | ["q"] =>
+    let ts := d.cands.filterMap taskTh
+    (d, s!"task={uniqStr (ts.map fun t => statusText t.status)} fin={uniqStr (d.cands.map fun s => toString s.fin)} " ++
+        s!"flag={uniqStr (d.cands.map fun s => b01 s.flag)} parked={uniqStr (ts.map fun t => b01 t.isParked)}")
+  | ["check", t, n, p, c] =>
+    match parseSys t n p c with
+    | some (sys, isLoop) => (d, runCheck sys isLoop)
+    | none => (d, "bad-op")
+  | ["progs"] => (d, " ".intercalate (QmiModel.Gen.SyncProgs.funcs.map fun f => s!"{f.code.length}/{f.handlers.length}"))
+  | _ => (d, "bad-op")
+
+def main : IO Unit := Drv.main' stepLine { sys := sysAny, isLoop := false, cands := inits sysAny }
